@@ -30,7 +30,7 @@ ASSUMPTIONS = ['maximum PDU length bounds the P-DATA-TF variable field (PS3.8 D.
 REQUIRED = ['oracle.size-bound', 'oracle.stream-discipline', 'oracle.byte-conservation',
             'oracle.bytes-vs-file', 'oracle.via-association-send']
 
-RANGE = {'quick': (7, 64), 'thorough': (7, 300)}
+RANGE = {'quick': (7, 64), 'thorough': (7, 600)}
 SOURCES = ['bytes', 'bytesio', 'file0', 'file-offset']
 
 
